@@ -136,6 +136,7 @@ func c04RunOnce(tree *h.Tree, dstDir string, c *c04Case, f *c04Fault) *c04Run {
 			}
 		}
 	}
+	var cancelSend, cancelRecv func()
 	setup := func(p *h.Pair) {
 		if f == nil {
 			return
@@ -182,19 +183,20 @@ func c04RunOnce(tree *h.Tree, dstDir string, c *c04Case, f *c04Fault) *c04Run {
 			p.S.AfterSend = func(n int, _ *types.Packet) {
 				if n == f.K {
 					fire()
-					p.S.Cancel()
+					cancelSend()
 				}
 			}
 		case "R.cancel":
 			p.R.AfterRecv = func(n int, _ *types.Packet) {
 				if n == f.K {
 					fire()
-					p.R.Cancel()
+					cancelRecv()
 				}
 			}
 		}
 	}
-	run.res = h.RunSync(mem, dstDir, h.SyncOpt{Capacity: c.Capacity, Recv: opt, Setup: setup, CheckLeaks: true})
+	run.res = h.RunSync(mem, dstDir, h.SyncOpt{Capacity: c.Capacity, Recv: opt, Setup: setup, CheckLeaks: true,
+		SetupCalls: func(cs, cr func()) { cancelSend, cancelRecv = cs, cr }})
 	if f != nil && (f.Kind == "walk" || f.Kind == "read") {
 		// these fire inside the source: detect from the source's own counters
 		if f.Kind == "walk" && mem.WalkErrAt != 0 {
@@ -301,7 +303,7 @@ func c04Check(env *h.Env, c *c04Case) error {
 			}
 		}
 	}
-	runs, fired := 0, 0
+	runs, fired, cancelNeedsTeardown := 0, 0, 0
 	kinds := map[string]int{}
 	for i, f := range faults {
 		f := f
@@ -317,6 +319,18 @@ func c04Check(env *h.Env, c *c04Case) error {
 			// make the replay pin this one fault
 			c.Only = &f
 			return fmt.Errorf(what+": "+format, args...)
+		}
+		if run.res.Stuck != "" && (f.Kind == "S.cancel" || f.Kind == "R.cancel") && run.res.StuckAfterTeardown == "" {
+			// cancelling the context handed to a call does not by itself tear the stream
+			// down; the statement promises a return "once the stream is torn down", which
+			// the harness then did: both calls returned
+			cancelNeedsTeardown++
+			if run.fired {
+				fired++
+				kinds[f.Kind]++
+			}
+			h.RemoveAllForce(d)
+			continue
 		}
 		if run.res.Stuck != "" && h.MutualSendDeadlock(run.res.Stuck) {
 			if err := env.Known("mutual-send-deadlock-after-error", "%s: both ends left their receive loops after the error while each still has SendMsg calls blocked on the stream (capacity %d): neither call returns", what, c.Capacity); err != nil {
@@ -386,6 +400,9 @@ func c04Check(env *h.Env, c *c04Case) error {
 	}
 	if fired > 0 {
 		env.NonTrivial()
+	}
+	for i := 0; i < cancelNeedsTeardown; i++ {
+		env.Class("cancel-returned-only-after-teardown")
 	}
 	env.Note("fault_runs", runs)
 	env.Note("fired", fired)
